@@ -77,11 +77,12 @@ class Lifespan:
             return
 
         try:
-            await self.app_send_channel.send({"type": "lifespan.startup"})
-        except (trio.BrokenResourceError, trio.ClosedResourceError):
-            pass  # The app has already left the lifespan scope
-        try:
+            # The app may not be taking the message either
             with trio.fail_after(self.config.startup_timeout):
+                try:
+                    await self.app_send_channel.send({"type": "lifespan.startup"})
+                except (trio.BrokenResourceError, trio.ClosedResourceError):
+                    pass  # The app has already left the lifespan scope
                 await self.startup.wait()
         except trio.TooSlowError as error:
             raise LifespanTimeoutError("startup") from error
@@ -94,14 +95,15 @@ class Lifespan:
             return
 
         try:
-            await self.app_send_channel.send({"type": "lifespan.shutdown"})
-        except (trio.BrokenResourceError, trio.ClosedResourceError):
-            pass  # The app has already left the lifespan scope
-        try:
+            # The app may not be taking the message either
             with trio.fail_after(self.config.shutdown_timeout):
+                try:
+                    await self.app_send_channel.send({"type": "lifespan.shutdown"})
+                except (trio.BrokenResourceError, trio.ClosedResourceError):
+                    pass  # The app has already left the lifespan scope
                 await self.shutdown.wait()
         except trio.TooSlowError as error:
-            raise LifespanTimeoutError("startup") from error
+            raise LifespanTimeoutError("shutdown") from error
 
     async def asgi_receive(self) -> ASGIReceiveEvent:
         return await self.app_receive_channel.receive()
